@@ -107,10 +107,10 @@ def evalAx : Ax → List Tuple → List Tuple
 open Lat in
 /-- `join_mut` of the lattice column, through the C16 model of the column's type -/
 def LatKind.joinMut : LatKind → Val → Val → Val × Bool
-  | .maxInt, .int a, .int b =>
-    let r := Lat.joinMut (⟨a⟩ : Prim Int) ⟨b⟩; (.int r.1.val, r.2)
-  | .minInt, .int a, .int b =>
-    let r := Lat.joinMut (⟨⟨a⟩⟩ : Dual (Prim Int)) ⟨⟨b⟩⟩; (.int r.1.val.val, r.2)
+  | .maxInt, a, b =>
+    let r := Lat.joinMut (⟨intOf a⟩ : Prim Int) ⟨intOf b⟩; (if r.2 then .int r.1.val else a, r.2)
+  | .minInt, a, b =>
+    let r := Lat.joinMut (⟨⟨intOf a⟩⟩ : Dual (Prim Int)) ⟨⟨intOf b⟩⟩; (if r.2 then .int r.1.val.val else a, r.2)
   | .setUnion, .set a, .set b =>
     let r := Lat.joinMut (⟨a⟩ : LSet) ⟨b⟩; (.set r.1.elems, r.2)
   | .optMax, a, b =>
